@@ -296,4 +296,22 @@ PROPS = {
         level_text="Randomised exploration of request shapes against the production binaries with an exact refusal/no-effect oracle.",
         level_note="Trusted: model; gRPC client library.",
     ),
+    "C17": dict(
+        pkg="c17", level="exploration", needs_binary=True,
+        tests=[T("TestC17", Q(110, timeout=300, shrinktime="15s"), Q(500, timeout=1500, shards=4, shrinktime="60s")),
+               T("TestC17TLS", Q(6000, timeout=300), Q(40000, timeout=900, shards=8))],
+        rule="TestC17: six real processes started by the production wiring - leaders with token config {tables only, maintenance only, both, none} and followers {both, none}; a case is 3-20 calls, each to a drawn process and method "
+             "(Tables Create/Delete/List, Maintenance Backup (server stream) / Restore (client stream) / Reset, plus KV Range and Cluster Status as unprotected controls) carrying a generated authorization header: right token, no header, empty token, "
+             "strict prefix / suffix, extended by one character, one letter case-flipped, extra leading / trailing space, the OTHER service's token, wrong scheme, missing space, random token; scheme spelled Bearer/bearer/BEARER/bEaReR. "
+             "Oracle: a service with a configured token lets the call through iff scheme equals 'bearer' case-insensitively and the token is byte-identical; otherwise the status is exactly Unauthenticated and the table set (listed with the right token) "
+             "is unchanged; services without a configured token and unprotected services are unaffected. Non-trivial iff a near-miss credential (one edit away from valid) was refused. "
+             "TestC17TLS: security.TLSInfo.ServerConfig() with trusted CA + generated {allowed CN | allowed hostname | neither, client-cert-auth flag}; freshly minted ECDSA client certificates: issuer trusted / rogue CA with the SAME subject name / self-signed / "
+             "via trusted or rogue intermediate (chain sent or not) / none; CN exact / truncated / extended / prefixed / case-flipped / empty / unrelated; SAN DNS / IP / wildcard / mutated / absent; valid / expired / not yet valid; EKU client / both / server-only / none. "
+             "Real handshakes over net.Pipe, the server-side result is the verdict. Oracle: accepted iff x509 verification against the configured CA for client auth succeeds AND CN == allowed CN resp. VerifyHostname(allowed hostname) succeeds. "
+             "Non-trivial iff a certificate right in all aspects but one (or rogue CA with the right CN) was refused. Distinct = sha256 of case JSON.",
+        assumptions=["crypto/x509 verification is the definition of 'chains to that CA'", "header values are restricted to what the gRPC client library transmits (printable ASCII)"],
+        technique="property-based testing of the authentication decision against an independent reference predicate, on the real binaries (tokens) and on the real TLS configuration (certificates)",
+        level_text="Randomised exploration biased to near-miss credentials with an exact accept/refuse oracle.",
+        level_note="Trusted: Go's crypto/tls and crypto/x509; go-grpc-middleware's header parsing is part of the system under test.",
+    ),
 }
